@@ -1,5 +1,12 @@
 #!/bin/bash
-# usage: tools/runall.sh [--thorough]   runs every claimed check in parallel and prints one line each
+# usage: tools/runall.sh [--thorough]   runs every claimed check and prints one line each
+# quick: all in parallel; thorough: 4 at a time (each thorough check runs up to 3 self-test copies of the whole program)
 cd /verif
 ids=$(jq -r '.checks[].property_id' MANIFEST.json)
-for p in $ids; do ( ./check $p "$@" > /tmp/runall.$p.out 2>&1; echo "$p exit=$? kf=$(grep -c '^KNOWN-FINDING' /tmp/runall.$p.out) viol=$(grep -c '^VIOLATION' /tmp/runall.$p.out) $(grep -c CHECKER-BROKEN /tmp/runall.$p.out | sed 's/^0$//;s/^[1-9].*/BROKEN/')" ) & done; wait
+one() { p=$1; shift; ./check $p "$@" > /tmp/runall.$p.out 2>&1; echo "$p exit=$? kf=$(grep -c '^KNOWN-FINDING' /tmp/runall.$p.out) viol=$(grep -c '^VIOLATION' /tmp/runall.$p.out) $(grep -c CHECKER-BROKEN /tmp/runall.$p.out | sed 's/^0$//;s/^[1-9].*/BROKEN/')"; }
+export -f one
+if [ "$1" = "--thorough" ]; then
+  echo $ids | tr ' ' '\n' | xargs -P 4 -I{} bash -c 'one {} --thorough'
+else
+  for p in $ids; do one $p "$@" & done; wait
+fi
